@@ -220,3 +220,22 @@ def run(ck, prog, ctx):
     ck.rule("KSIB", "in a group of >= 3 kind variants of one operation, no member alone has an extra selecting / truncating / error-swallowing / text-changing step or calls a crate function no sibling calls")
     from engines import check_kind_siblings
     check_kind_siblings(ck, "KSIB", prog, r"^src/set\.rs$|^src/term/hpoterm\.rs$", floor=1)
+    # ---------------------------------------------------------------- Extend / get
+    ext = prog.body("<set::HpoSet<'_> as std::iter::Extend<term::hpoterm::HpoTerm<'b>>>::extend")
+    if ext is not None:
+        from engines import for_loops as _fl, check_every_element as _cee
+        lps = _fl(ext)
+        ins = {bi for bi, t in ext.calls() if t.callee.res == "term::group::HpoGroup::insert" or (t.callee.res or "").startswith("term::group::HpoGroup::insert::")}
+        raw = [t for _, t in ext.calls() if (t.callee.res or "").endswith("insert_unchecked") or (t.callee.method == "push" and "SmallVec" in (t.callee.def_args or ""))]
+        if len(lps) != 1:
+            ck.undecided("SELECT", "extend/loop", "HpoSet::extend is not a single loop over its argument", where=ext.where())
+        else:
+            _cee(ck, "SELECT", "extend", ext, lps[0], ins, "insert the term's id with the checked insert", "the added terms")
+        ck.ob("SELECT", "extend/checked", not raw, "HpoSet::extend %s" % ("adds ids through the sorted, duplicate-free insert" if not raw else "appends ids unchecked: the set loses its order / gains duplicates"), where=ext.where())
+    gt = prog.body("set::HpoSet::<'a>::get")
+    if gt is not None:
+        gets = [(bi, t) for bi, t in gt.calls() if t.callee.res == "term::group::HpoGroup::get" and len(t.args) == 2]
+        for bi, t in gets:
+            at = pvn.of_operand(gt, t.args[1])
+            ops = sorted({a[1] for a in at if a[0] == "op"})
+            ck.ob("FIELD", "get/index", params_of(at, gt.id) == {2} and not ops, "HpoSet::get(i) reads member %s of the sorted id group" % ("i" if not ops else "i after `%s`" % ", ".join(ops)), where=gt.where(t.line))
